@@ -562,4 +562,10 @@ func genC10() {
 	genC10KeySpec()
 	genC10Consts()
 	c10Wiring()
+	// pkg/filter/trie.go + FilterCmd / FilterKey translated into Lean (gofn_c10.go); its own generator name, so that a
+	// trie edit outside the subset is reported as that generator's failure
+	runGen("gofn_trie", genGofnTrie)
+	// C11's by-value scan of slot arithmetic (c11.go; the C10/C11 owner's generators are started from here so that the
+	// shared extra.go is not edited)
+	runGen("c11", genC11)
 }
